@@ -736,6 +736,74 @@ example : locate [[1, 1]] [] 1 = .valueError := by decide +kernel
 example : locate [] [[1, 1]] 1 = .valueError := by decide +kernel
 
 
+/-- **The points the optimiser returns are located at the designs it chose.**  `evaluating()` hands the
+acquisition optimiser the POINTS of the active designs (`choices[k] = X[active[k]]`), gets the chosen
+points back and turns them into design indices with `locate_points`.  With pairwise distinct design
+points of one dimension and a non-negative tolerance, that round trip is exact: the located indices are
+the active designs at the optimiser's picked positions, in the optimiser's order — so the sample is
+requested at (and booked on) the acquisition maximiser, not on a neighbour. -/
+theorem evaluating_locates_picks (X : Mat) (active : List Nat) (vals : List Rat) (q : Nat) (atol : Rat)
+    (d : Nat) (hat : 0 ≤ atol) (hq : 0 < q) (hne : vals ≠ []) (hlen : vals.length = active.length)
+    (hact : ∀ i ∈ active, i < X.length) (hnd : X.Nodup) (hdim : ∀ r ∈ X, r.length = d) :
+    locate ((optimizeDiscrete vals q).map (fun p => X.getD (active.getD p.1 0) [])) X atol =
+      .ok ((optimizeDiscrete vals q).map (fun p => active.getD p.1 0)) := by
+  set picks := optimizeDiscrete vals q with hpicks
+  have hpl : picks.length = min q vals.length := discrete_length vals q
+  have hpos : 0 < picks.length := by
+    rw [hpl]; exact Nat.lt_min.mpr ⟨hq, List.length_pos_iff.mpr hne⟩
+  have hpick : ∀ p ∈ picks, p.1 < active.length := by
+    intro p hp
+    have h := discrete_cells vals q p hp
+    have : p.1 < vals.length := by
+      rcases Nat.lt_or_ge p.1 vals.length with h' | h'
+      · exact h'
+      · rw [List.getElem?_eq_none h'] at h; cases h
+    omega
+  have hidx : ∀ p ∈ picks, active.getD p.1 0 < X.length := by
+    intro p hp
+    have hlt := hpick p hp
+    rw [getD_of_lt _ _ _ hlt]
+    exact hact _ (List.getElem_mem hlt)
+  set cand := picks.map (fun p => X.getD (active.getD p.1 0) []) with hcand
+  have hcne : cand ≠ [] := by
+    intro h
+    have : cand.length = 0 := by rw [h]; rfl
+    rw [hcand, List.length_map] at this
+    omega
+  have hcmem : ∀ x ∈ cand, x ∈ X := by
+    intro x hx
+    obtain ⟨p, hp, rfl⟩ := List.mem_map.mp hx
+    have := hidx p hp
+    rw [getD_of_lt _ _ _ this]
+    exact List.getElem_mem this
+  have hdim' : ∀ r ∈ X, ∀ x ∈ cand, r.length = x.length := by
+    intro r hr x hx
+    rw [hdim r hr, hdim x (hcmem x hx)]
+  obtain ⟨idx, hloc, hlen', hrow⟩ := locate_on_grid cand X atol hat hcne hdim' hcmem hnd
+  rw [hloc]
+  congr 1
+  apply List.ext_getElem
+  · rw [hlen', hcand, List.length_map, List.length_map]
+  · intro k hk1 hk2
+    have hkc : k < cand.length := hlen' ▸ hk1
+    have hkp : k < picks.length := by rw [hcand, List.length_map] at hkc; exact hkc
+    obtain ⟨i, hik, hi, hXi, huniq⟩ := hrow k hkc
+    rw [List.getElem?_eq_getElem hk1] at hik
+    cases hik
+    rw [List.getElem_map]
+    have hp := List.getElem_mem hkp
+    have hj := hidx _ hp
+    have hck : cand[k] = X[active.getD picks[k].1 0] := by
+      simp only [cand, List.getElem_map]
+      exact getD_of_lt _ _ _ hj
+    exact (huniq _ hj hck.symm).symm
+
+/-- non-vacuity: designs 3, 0, 2 active with values 1, 5, 5 (tie → first), batch 2 -/
+example : locate ((optimizeDiscrete [1, 5, 5] 2).map
+      (fun p => ([[0, 0], [1, 0], [1, 1], [0, 1]] : Mat).getD (([3, 0, 2] : List Nat).getD p.1 0) []))
+      [[0, 0], [1, 0], [1, 1], [0, 1]] (1/1000000) = .ok [0, 2] := by decide +kernel
+
+
 end LocatePoints
 
 end VOPy.C07
